@@ -89,7 +89,26 @@ func isPrefixErr(a []ParserError, b []ParserError) bool {
 // parserInv: representation invariant of a constructed parser.
 func parserInv(p *Parser) bool {
 	return p != nil && p.lexer != nil && lexer.LexInv(p.lexer) && p.prefixParseFns != nil && p.infixParseFns != nil && p.precedences != nil &&
-		len(p.contextStack) >= 1 && lexer.LexTok(p.CurrentToken) && lexer.LexTok(p.PeekToken)
+		len(p.contextStack) >= 1 && lexer.LexTok(p.CurrentToken) && lexer.LexTok(p.PeekToken) && eofSticky(p)
+}
+
+func b2i(b bool) int {
+	if b {
+		return 1
+	}
+	return 0
+}
+
+// parserMeasure: what is left to parse -- bytes behind the lexer's cursor plus the look-ahead tokens that are not the
+// end of input. Every token step with a current token other than end of input decreases it; nothing increases it.
+func parserMeasure(p *Parser) int {
+	return len(lexer.LexInput(p.lexer)) - lexer.LexPos(p.lexer) + b2i(p.PeekToken.Type != token.EOF) + b2i(p.CurrentToken.Type != token.EOF)
+}
+
+// eofSticky: once the look-ahead is the end of input the lexer is at the end, and the current token can only be the end
+// of input if the look-ahead is.
+func eofSticky(p *Parser) bool {
+	return implies(p.PeekToken.Type == token.EOF, lexer.LexPos(p.lexer) == len(lexer.LexInput(p.lexer))) && implies(p.CurrentToken.Type == token.EOF, p.PeekToken.Type == token.EOF)
 }
 
 // specLevel: binding power of a token type in a given per-parser table (LOWEST when absent).
@@ -191,6 +210,7 @@ func slotInfixFn(p *Parser, left ast.Expression) ast.Expression { return nil }
 //@   ensures [ctx@C16] sameCtx(p.contextStack, old(p.contextStack))
 //@   ensures [cep@C04] p.currentExpressionPrecedence == old(p.currentExpressionPrecedence)
 //@   ensures [errors-grow@C11] isPrefixErr(old(p.errors), p.errors)
+//@   ensures [measure@C11] parserMeasure(p) <= old(parserMeasure(p))
 
 // No parse step other than the three bracketing ones changes the context stack around its sub-steps.
 //@ group ctxStable
@@ -297,6 +317,8 @@ func lemma_parseFrame_trans(p *Parser) {
 //@   ensures [lexer] lexer.LexInv(p.lexer)
 //@   ensures [shift] eq(p.CurrentToken, old(p.PeekToken))
 //@   ensures [origin] lexer.LexTok(p.PeekToken)
+//@   ensures [measure@C11] implies(old(implies(p.PeekToken.Type == token.EOF, lexer.LexPos(p.lexer) == len(lexer.LexInput(p.lexer)))), parserMeasure(p) <= old(parserMeasure(p))-b2i(old(p.CurrentToken.Type) != token.EOF))
+//@   ensures [eof.sticky@C11] implies(old(implies(p.PeekToken.Type == token.EOF, lexer.LexPos(p.lexer) == len(lexer.LexInput(p.lexer)))), eofSticky(p))
 
 //@ func (p *Parser) AddErrorAtToken(message, tok)
 //@   props C11
@@ -378,7 +400,8 @@ func lemma_parseFrame_trans(p *Parser) {
 //@   use parseFrame ctxStable
 //@   ensures [wf@C11] forall(0, len(result), func(k int) bool { return result[k] != nil })
 //@   loop 1 invariant [wf@C11] forall(0, len(identifiers), func(k int) bool { return identifiers[k] != nil })
-//@   loop 1 invariant [frame] parserInv(p) && sameCtx(p.contextStack, old(p.contextStack)) && p.currentExpressionPrecedence == old(p.currentExpressionPrecedence) && isPrefixErr(old(p.errors), p.errors)
+//@   loop 1 invariant [frame] parserInv(p) && sameCtx(p.contextStack, old(p.contextStack)) && p.currentExpressionPrecedence == old(p.currentExpressionPrecedence) && isPrefixErr(old(p.errors), p.errors) && parserMeasure(p) <= old(parserMeasure(p))
+//@   loop 1 decreases parserMeasure(p)
 
 // Restricted production (ECMA-262 12.10.1): no operand is parsed when the next token is on a new line.
 //@ func (p *Parser) ParseReturnStatement()
@@ -414,7 +437,8 @@ func lemma_parseFrame_trans(p *Parser) {
 //@   props C11 C16 C13 C01 C15
 //@   use parseFrame viaSlot
 //@   atcall slotStmtFn [ctx.block@C16] sameCtx(p.contextStack, push(old(p.contextStack), BlockContext))
-//@   loop 1 invariant [frame] parserInv(p) && sameCtx(p.contextStack, push(old(p.contextStack), BlockContext)) && p.currentExpressionPrecedence == old(p.currentExpressionPrecedence) && isPrefixErr(old(p.errors), p.errors)
+//@   loop 1 invariant [frame] parserInv(p) && sameCtx(p.contextStack, push(old(p.contextStack), BlockContext)) && p.currentExpressionPrecedence == old(p.currentExpressionPrecedence) && isPrefixErr(old(p.errors), p.errors) && parserMeasure(p) <= old(parserMeasure(p))
+//@   loop 1 decreases parserMeasure(p) + b2i(p.CurrentToken.Type != token.EOF)
 //@   loop 1 invariant [block] block != nil && forall(0, len(block.Statements), func(i int) bool { return !isNil(block.Statements[i]) })
 //@   ensures [nonnil] result != nil
 //@   ensures [no-nil-entries@C11] forall(0, len(result.Statements), func(i int) bool { return !isNil(result.Statements[i]) })
@@ -464,7 +488,7 @@ func lemma_parseFrame_trans(p *Parser) {
 //@   atcall (*Parser).ParseInfixExpression [smart.nocut@C13] !(p.smartSemicolons && p.PeekToken.AfterNewline && (p.PeekToken.Type == token.LPAREN || p.PeekToken.Type == token.LBRACKET))
 //@   atcall (*Parser).ParseInfixExpression [restricted.postfix@C02,C13] !(p.PeekToken.AfterNewline && (p.PeekToken.Type == token.INCREMENT || p.PeekToken.Type == token.DECREMENT))
 //@   ensures [climb.exit@C02,C13] p.PeekToken.Type == token.SEMICOLON || precedence >= specLevel(p.precedences, p.PeekToken.Type) || (p.smartSemicolons && p.PeekToken.AfterNewline && (p.PeekToken.Type == token.LPAREN || p.PeekToken.Type == token.LBRACKET)) || (p.PeekToken.AfterNewline && (p.PeekToken.Type == token.INCREMENT || p.PeekToken.Type == token.DECREMENT))
-//@   loop 1 invariant [frame] parserInv(p) && sameCtx(p.contextStack, old(p.contextStack)) && p.currentExpressionPrecedence == old(p.currentExpressionPrecedence) && isPrefixErr(old(p.errors), p.errors)
+//@   loop 1 invariant [frame] parserInv(p) && sameCtx(p.contextStack, old(p.contextStack)) && p.currentExpressionPrecedence == old(p.currentExpressionPrecedence) && isPrefixErr(old(p.errors), p.errors) && parserMeasure(p) <= old(parserMeasure(p))
 //@   loop 1 invariant [left@C11] implies(isNil(left), len(p.errors) > len(old(p.errors)) || isNil(old(left)))
 
 // Re-entrant continuation for expression interceptors: the same loop, at the binding power the innermost wrapper published.
@@ -548,7 +572,8 @@ func lemma_parseFrame_trans(p *Parser) {
 //@   ensures [wf@C11] implies(len(p.errors) == len(old(p.errors)) && !isNil(result), forall(0, len(result.(*ast.ObjectLiteral).Properties), func(k int) bool { return !isNil(result.(*ast.ObjectLiteral).Properties[k].Key) && !isNil(result.(*ast.ObjectLiteral).Properties[k].Value) }))
 //@   loop 1 invariant [wf@C11] implies(len(p.errors) == len(old(p.errors)), forall(0, len(obj.Properties), func(k int) bool { return !isNil(obj.Properties[k].Key) && !isNil(obj.Properties[k].Value) }))
 //@   ensures [node@C01,C08,C15] implies(!isNil(result), isType[*ast.ObjectLiteral](result) && eq(result.(*ast.ObjectLiteral).Token, old(p.CurrentToken)))
-//@   loop 1 invariant [frame] parserInv(p) && sameCtx(p.contextStack, old(p.contextStack)) && p.currentExpressionPrecedence == old(p.currentExpressionPrecedence) && isPrefixErr(old(p.errors), p.errors) && obj != nil
+//@   loop 1 invariant [frame] parserInv(p) && sameCtx(p.contextStack, old(p.contextStack)) && p.currentExpressionPrecedence == old(p.currentExpressionPrecedence) && isPrefixErr(old(p.errors), p.errors) && obj != nil && parserMeasure(p) <= old(parserMeasure(p))
+//@   loop 1 decreases parserMeasure(p)
 
 //@ func (p *Parser) ParseFunctionExpression()
 //@   props C11 C16 C13 C01
@@ -609,13 +634,15 @@ func lemma_parseFrame_trans(p *Parser) {
 //@   use parseFrame ctxStable
 //@   ensures [wf@C11] implies(len(p.errors) == len(old(p.errors)), forall(0, len(result), func(k int) bool { return !isNil(result[k]) }))
 //@   loop 1 invariant [wf@C11] implies(len(p.errors) == len(old(p.errors)), forall(0, len(args), func(k int) bool { return !isNil(args[k]) }))
-//@   loop 1 invariant [frame] parserInv(p) && sameCtx(p.contextStack, old(p.contextStack)) && p.currentExpressionPrecedence == old(p.currentExpressionPrecedence) && isPrefixErr(old(p.errors), p.errors)
+//@   loop 1 invariant [frame] parserInv(p) && sameCtx(p.contextStack, old(p.contextStack)) && p.currentExpressionPrecedence == old(p.currentExpressionPrecedence) && isPrefixErr(old(p.errors), p.errors) && parserMeasure(p) <= old(parserMeasure(p))
+//@   loop 1 decreases parserMeasure(p)
 
 //@ func (p *Parser) ParseProgram()
 //@   props C11 C16
 //@   use parseFrame viaSlot
 //@   atcall slotStmtFn [ctx.stable@C16] sameCtx(p.contextStack, old(p.contextStack))
-//@   loop 1 invariant [frame] parserInv(p) && sameCtx(p.contextStack, old(p.contextStack)) && p.currentExpressionPrecedence == old(p.currentExpressionPrecedence) && isPrefixErr(old(p.errors), p.errors)
+//@   loop 1 invariant [frame] parserInv(p) && sameCtx(p.contextStack, old(p.contextStack)) && p.currentExpressionPrecedence == old(p.currentExpressionPrecedence) && isPrefixErr(old(p.errors), p.errors) && parserMeasure(p) <= old(parserMeasure(p))
+//@   loop 1 decreases parserMeasure(p) + b2i(p.CurrentToken.Type != token.EOF)
 //@   loop 1 invariant [program] program != nil && forall(0, len(program.Statements), func(i int) bool { return !isNil(program.Statements[i]) })
 //@   ensures [program@C11] result0 != nil
 //@   ensures [eof@C15] eq(result0.EOF, p.CurrentToken) && p.CurrentToken.Type == token.EOF
